@@ -108,6 +108,17 @@ fn run_tree(bytes: &[u8], ctx: &Ctx) -> CaseInfo {
     eval(&p, true, ctx)
 }
 
+fn run_fd(bytes: &[u8], ctx: &Ctx) -> CaseInfo {
+    // CLP(FD) programs: constraints are taken, re-run and re-added during propagation, also in
+    // nested run_constraints calls when a domain collapses to a single value
+    let mut s = Source::new(bytes);
+    let mut cfg = crate::gen::fd::FdCfg::full();
+    cfg.max_constraints = 6;
+    let c = crate::gen::fd::gen_case(&mut s, &cfg);
+    let p = c.program();
+    eval(&p, false, ctx)
+}
+
 fn fixed_example(ctx: &Ctx) -> CaseInfo {
     // x != 5, [x, y] != [5, 6], [x, y] != [5, 6]   (property text)
     let (x, y) = (Term::Var(0), Term::Var(1));
@@ -135,7 +146,10 @@ pub fn def() -> PropertyDef {
         id: "C22",
         rule: "family T programs (==, !=, conde, fresh, subsuming-pair motif) and FD programs run with an instrumented User type; a probe fngoal is inserted after every goal of every goal list. Invariants: at every probe (also on branches that fail later), at the end of the body and after reification with_constraint calls - take_constraint calls = constraints in the store; every binding passed to process_extension is in the state's substitution; for tree programs the number of logged bindings equals the size of the substitution, and per answer (probe trace, number of process_extension calls) equals the reference interpreter's (path, successful == goals + 1). Non-trivial = >=2 constraints stored at some probe and >=1 take_constraint call; distinct = hash of the printed program",
         assumptions: vec!["reference interpreter is correct (used for traces and extension counts only; the balance invariants need no reference)"],
-        families: vec![Family { name: "tree", max_len: 160, quick: 120_000, thorough: 3_000_000, run: run_tree }],
+        families: vec![
+            Family { name: "tree", max_len: 160, quick: 120_000, thorough: 3_000_000, run: run_tree },
+            Family { name: "fd", max_len: 160, quick: 100_000, thorough: 2_000_000, run: run_fd },
+        ],
         fixed: vec![Fixed { name: "property-text-example", run: fixed_example }, Fixed { name: "weaker-then-stronger-then-binding", run: fixed_replace }],
         witnesses: vec![],
         exhaustive: None,
